@@ -60,6 +60,14 @@ class WatchScenario(Scenario):
             return ['429:ra1', '500', 'conn'] if req.params.get('watch') == 'true' else ['conn']
         return ()
 
+    def serve_fault(self, env: Env, req: Request) -> str | None:
+        # scripted: from `throttled_at` on, the next N list/watch requests are answered 429 (N > the client's retries: the request escalates)
+        th = self.params.get('throttled')
+        if th and req.method == 'get' and env.now >= float(th[0]) and env.counters.get('throttled', 0) < int(th[1]):
+            env.count('throttled')
+            return '429'
+        return None
+
     def stream_faults(self, env: Env, s: Stream) -> Iterable[str]:
         if self.params.get('dev_faults') and sum(1 for _, k, _ in env.obs if k == 'streamfault') < self.params.get('max_stream_faults', 1):
             return ['eof', 'reset', 'gone410', 'bookmark', 'ctimeout']
@@ -223,6 +231,10 @@ class WatchScenario(Scenario):
         elif ended is not None and ended.get('error') not in (None,):
             if not any(r.fault for r in env.world.requests if r.fault in ('500',)):
                 out.append(self.viol(env, 'stream-failed', f"the infinite watch ended with {ended}", clause='continuity', exc=ended.get('error')))
+        if ended is not None and ended.get('error') is None:
+            # an infinite watch that simply RETURNS (nobody cancelled it, nothing failed): the served pair is silently not watched any more
+            out.append(self.viol(env, 'watch-ended-silently', f"the infinite watch returned at t={next((t for t, k, _ in env.obs if k == 'stream-ended'), None)} without an "
+                                                              f"error; changes made afterwards reach nobody", clause='continuity'))
         # completeness at quiescence
         if ended is None and not env.owes() and not paused and env.now >= self.horizon - 1:
             K = KEX
@@ -285,6 +297,12 @@ def watch_scenarios(tier: str) -> tuple[list[WatchScenario], list[WatchScenario]
                     user.append((at, f))
             user.sort(key=lambda x: x[0])
             scripted.append(WatchScenario(user=user, pre=['z'], horizon=40.0))
+    # the API server throttles the operator: after a disconnect, the list / watch requests are answered 429 more often than the client retries
+    # them (the request escalates) - the watch keeps trying until it is let in again, and the changes made meanwhile reach processing
+    for how in ('eof', 'gone410', 'reset'):
+        for n429 in (2, 3, 5):
+            user = [(2.0, 'create', 'a'), (4.0, how), (4.5, 'modify', 'a'), (6.0, 'create', 'b'), (12.0, 'modify', 'b'), (13.0, 'delete', 'a')]
+            scripted.append(WatchScenario(user=user, pre=['z'], horizon=45.0, throttled=[4.0, n429]))
     # inactivity: no events for longer than the inactivity timeout, then a change
     scripted.append(WatchScenario(user=[(2.0, 'create', 'a'), (30.0, 'modify', 'a'), (31.0, 'delete', 'a')], pre=[], horizon=70.0))
     # resource versions are opaque: the same scripts with versions that gain a digit in mid-history (99 -> 100, 9 -> 10)
